@@ -128,6 +128,7 @@ func initOpenRange() {
 	RegisterNativeClass("Std::OpenRange", "value.OpenRangeClass")
 
 	OpenRangeIteratorClass = NewClass()
+	OpenRangeIteratorClass.IncludeMixin(ResettableIteratorBaseMixin)
 	OpenRangeClass.AddConstantString("Iterator", Ref(OpenRangeIteratorClass))
 	RegisterNativeClass("Std::OpenRange::Iterator", "value.OpenRangeIteratorClass")
 }
